@@ -578,9 +578,9 @@ class Visitor(ast.NodeVisitor):
             return PLACEHOLDER
 
         if isinstance(node.op, ast.And):
-            result = functools.reduce(lambda left, right: left and right, values, True)
+            result = functools.reduce(lambda left, right: left and right, values)
         elif isinstance(node.op, ast.Or):
-            result = functools.reduce(lambda left, right: left or right, values, True)
+            result = functools.reduce(lambda left, right: left or right, values)
         else:
             raise NotImplementedError("Unhandled op of {}: {}".format(node, node.op))
 
